@@ -5,7 +5,7 @@ use crate::engine::*;
 use crate::gen::cases::{gen_tree_case, TreeCase};
 use crate::gen::{chunks, xml as gxml};
 use crate::sinks::drive::{drive, drive_xml, XmlCfg};
-use crate::sinks::model::{Dsd, ModelDom};
+use crate::sinks::model::ModelDom;
 use serde::{Deserialize, Serialize};
 use serde_json::Value;
 
@@ -31,8 +31,7 @@ pub fn check(case: &Case, st: &mut Stats) -> Result<(), String> {
     st.eval();
     let dom = match case {
         Case::Html(tc) => {
-            let mut sink = ModelDom::new();
-            sink.dsd = if tc.cfg.dsd_allow { Dsd::AllowFail } else { Dsd::Deny };
+            let sink = ModelDom::for_cfg(&tc.cfg);
             let (dom, _res, _left) = drive(sink, &tc.cfg, &tc.chunks, |_, _, _, _| {});
             dom
         },
